@@ -94,11 +94,13 @@ package semigroup
 //
 //@ lemma evalDef[T any](s fp.Semigroup[T], x T, y T)
 //@   prop C11
+//@   option unroll=exact
 //@   ensures Eq(Eval(s).Combine(lazy.Done(x), lazy.Done(y)).Get(), s.Combine(x, y))
 //@   tag combinesValues
 //
 //@ lemma evalLaws[T any](s fp.Semigroup[T], x T, y T, z T)
 //@   prop C11
+//@   option unroll=exact
 //@   requires veriflaws.SemigroupLaws(s)
 //@   ensures Eq(Eval(s).Combine(Eval(s).Combine(lazy.Done(x), lazy.Done(y)), lazy.Done(z)).Get(), Eval(s).Combine(lazy.Done(x), Eval(s).Combine(lazy.Done(y), lazy.Done(z))).Get())
 //@   tag assoc
